@@ -1349,7 +1349,16 @@ class TaskPool:
                 TASK_STATUS_PREPARING
             ) or (
                 itask.state(TASK_STATUS_WAITING)
-                and not itask.state.is_runahead
+                and (
+                    not itask.state.is_runahead
+                    # (a task spawned in this main loop iteration is flagged
+                    # as runahead-limited until the next one; if it is within
+                    # the runahead limit it is about to be released:)
+                    or (
+                        self.runahead_limit_point is not None
+                        and itask.point <= self.runahead_limit_point
+                    )
+                )
                 # (avoid waiting pre-spawned absolute-triggered tasks:)
                 and itask.prereqs_are_satisfied()
             ) for itask in self.get_tasks()
